@@ -349,4 +349,36 @@ theorem two_pow_pred (w : Nat) (hw : 0 < w) : 2 ^ w = 2 * 2 ^ (w - 1) := by
   | zero => omega
   | succ k => simp [Nat.pow_succ]; omega
 
+/-! ### the order of the checks in `unpack_bits` / `pack_bits` (commit 97c65b7): order, axis, empty shortcut -/
+
+theorem axisCheck_ok (ndim : Nat) (ax : Int) (hk : normalizeAxis ndim ax < ndim) :
+    axisCheck ndim (some ax) = .ok () := by
+  simp only [axisCheck, ge_iff_le]; rw [if_neg (by omega)]
+
+theorem axisCheck_err (ndim : Nat) (ax : Int) (hk : ndim ≤ normalizeAxis ndim ax) :
+    axisCheck ndim (some ax) = .err .AxisOutOfBounds := by
+  simp only [axisCheck, ge_iff_le]; rw [if_pos hk]
+
+/-- accepted order, in-range axis, non-empty array: `unpack_bits` is `apply_along_axis` with the lane function -/
+theorem unpackBits_axis (along : Along) (a : Arr Nat) (ax : Int) (count : Option Int) (ord : Option Spelling)
+    (o : BitOrder) (ho : optOrder ord = .ok o) (hk : normalizeAxis a.ndim ax < a.ndim) (hne : a.isEmpty = false) :
+    unpackBits along a (some ax) count ord = along a (normalizeAxis a.ndim ax) (unpackLane o count) := by
+  simp only [unpackBits, ho, axisCheck_ok _ _ hk, hne, Bool.false_eq_true, if_false]
+
+theorem packBits_axis (along : Along) (a : Arr Nat) (ax : Int) (ord : Option Spelling)
+    (o : BitOrder) (ho : optOrder ord = .ok o) (hk : normalizeAxis a.ndim ax < a.ndim) (hne : a.isEmpty = false) :
+    packBits along a (some ax) ord = along a (normalizeAxis a.ndim ax) (packLane o) := by
+  simp only [packBits, ho, axisCheck_ok _ _ hk, hne, Bool.false_eq_true, if_false]
+
+/-- accepted order, flat form, non-empty array -/
+theorem unpackBits_flat (along : Along) (a : Arr Nat) (count : Option Int) (ord : Option Spelling)
+    (o : BitOrder) (ho : optOrder ord = .ok o) (hne : a.isEmpty = false) :
+    unpackBits along a none count ord = unpackFlatArr o count a := by
+  simp only [unpackBits, ho, axisCheck, hne, Bool.false_eq_true, if_false]
+
+theorem packBits_flat (along : Along) (a : Arr Nat) (ord : Option Spelling)
+    (o : BitOrder) (ho : optOrder ord = .ok o) (hne : a.isEmpty = false) :
+    packBits along a none ord = packFlatArr o a := by
+  simp only [packBits, ho, axisCheck, hne, Bool.false_eq_true, if_false]
+
 end ArrModel.C19
